@@ -354,6 +354,31 @@ static int ANIcreate(int32 file_id, uint16 elem_tag, uint16 elem_ref, ann_type t
     /* failure leaves no id registered for a node that has been released */
     __CPROVER_ensures(__CPROVER_return_value == FAIL ==> g_reg_obj == NULL);
 
+/* ANfileinfo: the four counts are the numbers of annotations of the four types -- each output names ITS type's tree; a tree that is
+   not loaded yet is loaded first (ANIcreate_ann_tree, by its ASSUMED contract above), one that is loaded keeps its number */
+#define FI_N(t) (g_frec->an_num[t])
+static int32 g_fi_old[4];
+int32 ANfileinfo(int32 an_id, int32 *n_file_label, int32 *n_file_desc, int32 *n_obj_label, int32 *n_obj_desc)
+    __CPROVER_requires(__CPROVER_is_fresh(n_file_label, sizeof(int32)) && __CPROVER_is_fresh(n_file_desc, sizeof(int32)) &&
+                       __CPROVER_is_fresh(n_obj_label, sizeof(int32)) && __CPROVER_is_fresh(n_obj_desc, sizeof(int32)))
+    __CPROVER_requires(g_hfail == 0 && (g_frec == NULL || g_frec->refcount != 0))
+    /* g_fi_old: the harness's snapshot of the four numbers at entry */
+    __CPROVER_requires(g_frec == NULL || (g_fi_old[0] == g_frec->an_num[0] && g_fi_old[1] == g_frec->an_num[1] &&
+                                          g_fi_old[2] == g_frec->an_num[2] && g_fi_old[3] == g_frec->an_num[3]))
+    __CPROVER_assigns(*n_file_label, *n_file_desc, *n_obj_label, *n_obj_desc, g_hfail; g_frec != NULL: __CPROVER_object_whole(g_frec))
+    __CPROVER_ensures(__CPROVER_return_value == SUCCEED || __CPROVER_return_value == FAIL)
+    __CPROVER_ensures((an_id != g_file || g_frec == NULL) ==> __CPROVER_return_value == FAIL)
+    __CPROVER_ensures(__CPROVER_return_value == FAIL ==> (an_id != g_file || g_frec == NULL || g_hfail == 1))
+    __CPROVER_ensures(__CPROVER_return_value == SUCCEED ==>
+                      (FI_N(AN_FILE_LABEL) >= 0 && FI_N(AN_FILE_DESC) >= 0 && FI_N(AN_DATA_LABEL) >= 0 && FI_N(AN_DATA_DESC) >= 0 &&
+                       *n_file_label == FI_N(AN_FILE_LABEL) && *n_file_desc == FI_N(AN_FILE_DESC) &&
+                       *n_obj_label == FI_N(AN_DATA_LABEL) && *n_obj_desc == FI_N(AN_DATA_DESC)))
+    /* a tree that was loaded keeps its number */
+    __CPROVER_ensures((g_frec != NULL && g_fi_old[AN_FILE_LABEL] != -1) ==> FI_N(AN_FILE_LABEL) == g_fi_old[AN_FILE_LABEL])
+    __CPROVER_ensures((g_frec != NULL && g_fi_old[AN_FILE_DESC] != -1) ==> FI_N(AN_FILE_DESC) == g_fi_old[AN_FILE_DESC])
+    __CPROVER_ensures((g_frec != NULL && g_fi_old[AN_DATA_LABEL] != -1) ==> FI_N(AN_DATA_LABEL) == g_fi_old[AN_DATA_LABEL])
+    __CPROVER_ensures((g_frec != NULL && g_fi_old[AN_DATA_DESC] != -1) ==> FI_N(AN_DATA_DESC) == g_fi_old[AN_DATA_DESC]);
+
 #ifdef H4V_NATIVE
 #include "h4v_native_wrap.h"
 #endif
@@ -611,4 +636,44 @@ h_ANIcreate_rest(void)
     H4V_COVER(r != FAIL && !g_entry_present && g_frec->an_num[AN_FILE_DESC] == 1, "create: first file description");
     H4V_COVER(r == FAIL && g_f_reg, "create: id registration fails");
     H4V_CANARY("ANIcreate (rest) end");
+}
+
+
+/* ANfileinfo over a file whose four trees are loaded or not, independently */
+void
+h_ANfileinfo(void)
+{
+    H4V_HAVOC(int32, g_file);
+    H4V_ND(int, frec_null);
+    H4V_ND(int32, an_id);
+    g_ann_id        = FAIL;
+    g_node          = NULL;
+    g_hfail         = 0;
+    g_frec          = NULL;
+    g_tree          = NULL;
+    g_entry_present = 0;
+    g_ex            = 0;
+    H4V_ASSUME(g_file != FAIL);
+    if (!frec_null) {
+        g_frec = malloc(sizeof(filerec_t));
+        H4V_ASSUME(g_frec != NULL);
+        g_frec->refcount = 1;
+        for (int i = 0; i < 4; i++) {
+            H4V_ND(int, an_n);
+            H4V_ASSUME(an_n >= -1 && an_n < 65536);
+            g_frec->an_num[i]  = an_n;
+            g_fi_old[i]        = an_n;
+            g_frec->an_tree[i] = NULL;
+            if (an_n != -1) {
+                g_frec->an_tree[i] = malloc(sizeof(TBBT_TREE));
+                H4V_ASSUME(g_frec->an_tree[i] != NULL);
+            }
+        }
+    }
+    int32 *a = malloc(sizeof(int32)), *b = malloc(sizeof(int32)), *c = malloc(sizeof(int32)), *d = malloc(sizeof(int32));
+    H4V_ASSUME(a != NULL && b != NULL && c != NULL && d != NULL);
+    int r = ANfileinfo(an_id, a, b, c, d);
+    H4V_COVER(r == SUCCEED && *a != *b && *c != *d && *a != *c, "fileinfo: four different counts");
+    H4V_COVER(r == FAIL && g_hfail, "fileinfo: loading a tree fails");
+    H4V_CANARY("ANfileinfo end");
 }
